@@ -29,3 +29,171 @@ def _(a: str, b: str) -> int:
     def _():
         invariant(len(v1) == n + 1)
         invariant(forall(0, jj + 1, lambda k: v1[k] == Lev(a, i + 1, b, k)))
+
+
+# ---------------------------------------------------------------- XML text escaping (C01, C06)
+
+@spec
+def EscChar(c: str) -> str:
+    """XML 1.0 character-data escaping of one character (text channel)."""
+    if c == "&":
+        return "&amp;"
+    if c == "<":
+        return "&lt;"
+    if c == ">":
+        return "&gt;"
+    return c
+
+
+@spec
+def EscT(s: str) -> str:
+    if len(s) == 0:
+        return ""
+    return EscChar(s[0]) + EscT(s[1:])
+
+
+@lemma(induct="s")
+def L_translate_is_EscT(s: str):
+    """The real XML_TEXT_TABLE implements exactly the XML text escaping."""
+    properties("C01", "C06")
+    ensures(translate_table(s, "pyxform.utils.XML_TEXT_TABLE") == EscT(s))
+
+
+@lemma(induct="s")
+def L_EscT_identity(s: str):
+    """Text without markup characters is its own escaping (soundness of the fast path)."""
+    properties("C01", "C06")
+    requires(not ("&" in s) and not ("<" in s) and not (">" in s))
+    ensures(EscT(s) == s)
+
+
+@contract("escape_text_for_xml")
+def _(text: str) -> str:
+    properties("C01", "C06")
+    use_lemma("L_translate_is_EscT", "L_EscT_identity")
+    ensures(result == EscT(text))
+
+
+# ---------------------------------------------------------------- serialisation (C01, C06, C15)
+
+Writer = Obj("Writer", buf=str)
+XNode = Opaque("XNode")
+Attr = Obj("Attr", value=str)
+declare_fields("XNode", nodeType=int)
+
+
+@spec
+def EscA(s: str) -> str:
+    """minidom _write_data: attribute-value escaping (& < " >). Trusted stdlib behaviour."""
+    uninterpreted()
+
+
+@spec
+def Ser(x: XNode, indent: str, addindent: str, newl: str) -> str:
+    """Text written by x.writexml(writer, indent, addindent, newl): the family contract of writexml."""
+    uninterpreted()
+
+
+@contract("_write_data", module="xml.dom.minidom")
+def _(writer: Writer, text: str) -> None:
+    trusted("stdlib xml.dom.minidom._write_data appends the attribute-escaped text")
+    mutates(writer=Writer_append(writer, EscA(text)))
+
+
+@contract("XNode.writexml", module="xml.dom.minidom")
+def _(self: XNode, writer: Writer, indent: str, addindent: str, newl: str) -> None:
+    trusted("family contract of Node.writexml: every override appends Ser(self, layout); the two pyxform overrides are proved against it, stdlib Element/Text are assumed")
+    mutates(writer=Writer_append(writer, Ser(self, indent, addindent, newl)))
+
+
+@contract("PatchedText.writexml")
+def _(self: Obj("PatchedText", data=str), writer: Writer, indent: str = "", addindent: str = "", newl: str = "") -> None:
+    properties("C01", "C06", "C15")
+    use_lemma("L_translate_is_EscT", "L_EscT_identity")
+    # a text node writes its escaped data between the caller's indent and newline, nothing else
+    mutates(writer=Writer_append(writer, EscT(indent + self.data + newl)))
+
+
+@spec
+def IsText(x: XNode) -> bool:
+    return x.nodeType == 3 or x.nodeType == 4
+
+
+@spec
+def AttrSer(attrs: Dict[str, Attr], j: int) -> str:
+    """The first j attributes, each written as  name="escaped value"  in insertion order."""
+    if j <= 0:
+        return ""
+    k = keys(attrs)[j - 1]
+    return AttrSer(attrs, j - 1) + " " + k + '="' + EscA(attrs[k].value) + '"'
+
+
+@spec
+def Mixed(kids: List[XNode], j: int) -> str:
+    """Mixed (text-bearing) content: children written inline without layout; one boundary space
+    before a leading text node and one after the last child when there are several children."""
+    if j <= 0:
+        return ""
+    pre = " " if (1 < len(kids) and j - 1 == 0 and IsText(kids[j - 1])) else ""
+    post = " " if (1 < len(kids) and j == len(kids)) else ""
+    return Mixed(kids, j - 1) + pre + Ser(kids[j - 1], "", "", "") + post
+
+
+@spec
+def Block(kids: List[XNode], j: int, ind: str, add: str, nl: str) -> str:
+    """Element-only content: each child on its own indented line."""
+    if j <= 0:
+        return ""
+    return Block(kids, j - 1, ind, add, nl) + Ser(kids[j - 1], ind, add, nl)
+
+
+@spec
+def SerElem(tag: str, attrs: Dict[str, Attr], kids: List[XNode], ind: str, add: str, nl: str) -> str:
+    """The serialisation the property prescribes for an element (DESIGN.md §3, Ser)."""
+    head = ind + "<" + tag + AttrSer(attrs, len(keys(attrs)))
+    if len(kids) == 0:
+        return head + "/>" + nl
+    if exists(0, len(kids), lambda k: IsText(kids[k])):
+        return head + ">" + Mixed(kids, len(kids)) + "</" + tag + ">" + nl
+    return head + ">" + nl + Block(kids, len(kids), ind + add, add, nl) + ind + "</" + tag + ">" + nl
+
+
+@contract("DetachableElement.writexml")
+def _(self: Obj("DetachableElement", tagName=str, _attrs=Dict[str, Attr], childNodes=List[XNode]),
+      writer: Writer, indent: str = "", addindent: str = "", newl: str = "") -> None:
+    properties("C01", "C06", "C15")
+    no_native("needs a DOM builder: exercised through the e2e oracles")
+    head = writer.buf + indent + "<" + self.tagName
+    mutates(writer=Writer_append(writer, SerElem(self.tagName, self._attrs, self.childNodes, indent, addindent, newl)))
+
+    @loop(0, index="j", header="self._attrs.items()")
+    def _():
+        invariant(writer.buf == head + AttrSer(self._attrs, j))
+
+    @loop(1, index="m", header="enumerate(self.childNodes)")
+    def _():
+        invariant(writer.buf == head + AttrSer(self._attrs, len(keys(self._attrs))) + ">" + Mixed(self.childNodes, m))
+
+    @loop(2, index="b", header="self.childNodes")
+    def _():
+        invariant(writer.buf == head + AttrSer(self._attrs, len(keys(self._attrs))) + ">" + newl
+                  + Block(self.childNodes, b, indent + addindent, addindent, newl))
+
+
+@lemma
+def L_layout_text_bearing(tag: str, attrs: Dict[str, Attr], kids: List[XNode], i1: str, a1: str, n1: str):
+    """C15: an element with text-bearing (mixed) content, or without children, is written identically under
+    every layout, except for the caller's indent before it and newline after it."""
+    properties("C15")
+    requires(len(kids) == 0 or exists(0, len(kids), lambda k: IsText(kids[k])))
+    ensures(SerElem(tag, attrs, kids, i1, a1, n1) == i1 + SerElem(tag, attrs, kids, "", "", "") + n1)
+
+
+@lemma
+def L_layout_element_only(tag: str, attrs: Dict[str, Attr], kids: List[XNode], i1: str, a1: str, n1: str):
+    """C15: element-only content — layout strings occur only directly after '>' and directly before '<'."""
+    properties("C15")
+    requires(len(kids) > 0 and not exists(0, len(kids), lambda k: IsText(kids[k])))
+    ensures(SerElem(tag, attrs, kids, i1, a1, n1)
+            == i1 + "<" + tag + AttrSer(attrs, len(keys(attrs))) + ">" + n1
+            + Block(kids, len(kids), i1 + a1, a1, n1) + i1 + "</" + tag + ">" + n1)
